@@ -159,10 +159,42 @@ class EnumGenerator:
 
         enum_class_name = base_name  # PythonConstructRenderer will sanitize this class name
         base_type = "str" if schema.type == "string" else "int"
+        values = self._generate_members(schema)
+
+        # logger.debug(
+        #     f"EnumGenerator: Preparing to render enum '{enum_class_name}' "
+        #     f"with base type '{base_type}' and members: {values}."
+        # )
+        rendered_code = self.renderer.render_enum(
+            enum_name=enum_class_name,  # Pass the original base_name; renderer handles class name sanitization
+            base_type=base_type,
+            values=values,
+            description=schema.description,
+            context=context,
+        )
+
+        if not rendered_code.strip():
+            raise RuntimeError("Generated enum code cannot be empty.")
+        if not ("enum" in context.import_collector.imports and "Enum" in context.import_collector.imports["enum"]):
+            raise RuntimeError("Enum import was not added to context by renderer.")
+
+        return rendered_code
+
+    def _generate_members(self, schema: IRSchema) -> List[Tuple[str, str | int]]:
+        """
+        Computes the (member name, member value) pairs of the enum class, in declaration order.
+
+        Contracts:
+            Pre-conditions:
+                - ``schema.enum`` is not None and ``schema.type`` is either "string" or "integer".
+            Post-conditions:
+                - The member names are unique valid Python identifiers.
+        """
+        base_type = "str" if schema.type == "string" else "int"
         values: List[Tuple[str, str | int]] = []
         processed_member_names = set()
 
-        for val_from_spec in schema.enum:
+        for val_from_spec in schema.enum or []:
             member_name: str
             member_value: str | int
 
@@ -192,21 +224,4 @@ class EnumGenerator:
 
             values.append((unique_member_name, member_value))
 
-        # logger.debug(
-        #     f"EnumGenerator: Preparing to render enum '{enum_class_name}' "
-        #     f"with base type '{base_type}' and members: {values}."
-        # )
-        rendered_code = self.renderer.render_enum(
-            enum_name=enum_class_name,  # Pass the original base_name; renderer handles class name sanitization
-            base_type=base_type,
-            values=values,
-            description=schema.description,
-            context=context,
-        )
-
-        if not rendered_code.strip():
-            raise RuntimeError("Generated enum code cannot be empty.")
-        if not ("enum" in context.import_collector.imports and "Enum" in context.import_collector.imports["enum"]):
-            raise RuntimeError("Enum import was not added to context by renderer.")
-
-        return rendered_code
+        return values
